@@ -245,7 +245,7 @@ def initBuilt (dir : String) (h : CaseHdr) : IO (Outcome SeqState) := do
   | .ok th =>
     let timg : Spec.Img := { b := top, h := th }
     let mut back : Option Back := none
-    if h.img != "built" then
+    if (h.img.splitOn "+back").length > 1 then
       let bb ← IO.FS.readBinFile s!"{dir}/case{h.id}.img1"
       match Spec.parseHdr bb with
       | .error _ => return .err .invalid
